@@ -118,6 +118,20 @@ func zvFlat(name string, alpha []zvElem, maxLen int, mk func(es []zvPE, flag boo
 		}}
 }
 
+func (t zvType) withAlt(alt func(r zvRef, es []zvPE, got string) string) zvType {
+	t.alt = alt
+	return t
+}
+
+func zvExportedList(es []zvPE, flag bool) *structs.IndexedExportedServiceList {
+	out := &structs.IndexedExportedServiceList{Services: map[string]structs.ServiceList{}, QueryMeta: zvMeta(flag)}
+	for _, e := range es {
+		// a peer without (remaining) services is not part of the response
+		out.Services[e.Slot] = append(out.Services[e.Slot], structs.NewServiceName(e.Svc, nil))
+	}
+	return out
+}
+
 // withSlots returns alpha replicated for every slot.
 func zvWithSlots(alpha []zvElem, slots ...string) []zvElem {
 	var out []zvElem
@@ -459,6 +473,8 @@ func zvTypes() []zvType {
 	csnImported := []zvElem{{Node: "n2", Svc: "db", Peer: "peerA"}, {Node: "n1", Svc: "web", Peer: "peerA"}}
 	gsAlpha := []zvElem{{Gw: "gw", Svc: "web"}, {Gw: "gw", Svc: "db"}, {Gw: "gw2", Svc: "web"}, {Gw: "gw2", Svc: "db"}}
 
+	multiLen := core.N(4, 5) // alphabets of 6 symbols (several lists in one response)
+
 	var tys []zvType
 
 	// --- check service nodes in their various wrappers
@@ -476,13 +492,13 @@ func zvTypes() []zvType {
 				return &structs.PreparedQueryExecuteResponse{Service: "web", Datacenter: "dc1", Failovers: 1, Nodes: zvCSNs(es, lv), QueryMeta: zvMeta(flag)}
 			},
 			func(r zvRef, e zvElem) bool { return r.csn(e) }),
-		zvFlat("*structs.IndexedServiceTopology", zvWithSlots(csnSmall, "up", "down"), 5,
+		zvFlat("*structs.IndexedServiceTopology", zvWithSlots(csnSmall, "up", "down"), multiLen,
 			func(es []zvPE, flag bool, lv *zvLeaves) any {
 				return &structs.IndexedServiceTopology{FilteredByACLs: flag, QueryMeta: zvMeta(flag),
 					ServiceTopology: &structs.ServiceTopology{Upstreams: zvCSNs(zvSlot(es, "up"), lv), Downstreams: zvCSNs(zvSlot(es, "down"), lv), MetricsProtocol: "http"}}
 			},
 			func(r zvRef, e zvElem) bool { return r.csn(e) }),
-		zvFlat("*structs.DatacenterIndexedCheckServiceNodes", zvWithSlots(csnSmall, "dc1", "dc2"), 5,
+		zvFlat("*structs.DatacenterIndexedCheckServiceNodes", zvWithSlots(csnSmall, "dc1", "dc2"), multiLen,
 			func(es []zvPE, flag bool, lv *zvLeaves) any {
 				m := map[string]structs.CheckServiceNodes{}
 				for _, dc := range []string{"dc1", "dc2"} {
@@ -497,7 +513,7 @@ func zvTypes() []zvType {
 	)
 	nwgAlpha := append(zvWithSlots(csnSmall[:2], "nodes"), zvWithSlots(gsAlpha[:2], "gateways")...)
 	nwgAlpha = append(nwgAlpha, zvWithSlots(csnImported, "imported")...)
-	tys = append(tys, zvFlat("*structs.IndexedNodesWithGateways", nwgAlpha, 5,
+	tys = append(tys, zvFlat("*structs.IndexedNodesWithGateways", nwgAlpha, multiLen,
 		func(es []zvPE, flag bool, lv *zvLeaves) any {
 			return &structs.IndexedNodesWithGateways{Nodes: zvCSNs(zvSlot(es, "nodes"), lv), ImportedNodes: zvCSNs(zvSlot(es, "imported"), lv),
 				Gateways: zvGSs(zvSlot(es, "gateways"), lv), QueryMeta: zvMeta(flag)}
@@ -581,15 +597,24 @@ func zvTypes() []zvType {
 			},
 			func(r zvRef, e zvElem) bool { return r.svc(e.Svc, "") }),
 		zvFlat("*structs.IndexedExportedServiceList", zvWithSlots([]zvElem{{Svc: "web"}, {Svc: "db"}}, "peerA", "peerB"), 5,
-			func(es []zvPE, flag bool, lv *zvLeaves) any {
-				out := &structs.IndexedExportedServiceList{Services: map[string]structs.ServiceList{}, QueryMeta: zvMeta(flag)}
-				for _, e := range es {
-					// a peer without (remaining) services is not part of the response
-					out.Services[e.Slot] = append(out.Services[e.Slot], structs.NewServiceName(e.Svc, nil))
+			func(es []zvPE, flag bool, lv *zvLeaves) any { return zvExportedList(es, flag) },
+			func(r zvRef, e zvElem) bool { return r.svc(e.Svc, "") }).withAlt(func(r zvRef, es []zvPE, got string) string {
+			// specific defect class: content right, flag lost although something was removed, and the
+			// response spans two peers one of which lost nothing (the flag of the last visited peer wins)
+			kept, _, removed := zvSelect(es, func(e zvElem) bool { return r.svc(e.Svc, "") })
+			if !removed {
+				return ""
+			}
+			if got != zvRender(zvExportedList(kept, false)) {
+				return ""
+			}
+			for _, p := range []string{"peerA", "peerB"} {
+				if a, k := len(zvSlot(es, p)), len(zvSlot(kept, p)); a > 0 && a == k {
+					return "flag-overwritten-per-peer"
 				}
-				return out
-			},
-			func(r zvRef, e zvElem) bool { return r.svc(e.Svc, "") }),
+			}
+			return ""
+		}),
 		zvFlat("*structs.IndexedGatewayServices", gsAlpha, 5,
 			func(es []zvPE, flag bool, lv *zvLeaves) any {
 				return &structs.IndexedGatewayServices{Services: zvGSs(es, lv), QueryMeta: zvMeta(flag)}
@@ -612,7 +637,7 @@ func zvTypes() []zvType {
 				return (e.Src != "" && e.SrcPeer == "" && r.intention(e.Src)) || (e.Dst != "" && r.intention(e.Dst))
 			}),
 		zvFlat("*structs.IndexedServiceDump", []zvElem{{Gw: "gw", Svc: "web", Node: "n1"}, {Gw: "gw", Svc: "db", Node: "n1"}, {Gw: "gw2", Svc: "web", Node: "n1"},
-			{Gw: "gw", Svc: "web", Node: "n2"}, {Gw: "gw", Svc: "web", NoNode: true}, {Gw: "gw", Svc: "db", NoNode: true}}, 5,
+			{Gw: "gw", Svc: "web", Node: "n2"}, {Gw: "gw", Svc: "web", NoNode: true}, {Gw: "gw", Svc: "db", NoNode: true}}, multiLen,
 			func(es []zvPE, flag bool, lv *zvLeaves) any {
 				out := &structs.IndexedServiceDump{QueryMeta: zvMeta(flag)}
 				for _, e := range es {
